@@ -131,9 +131,12 @@ func ZZC01_breader_seek() {
 // ones the descriptor names, and the descriptor the reader reports keeps the
 // digest the caller asked for.
 func ZZC01_breader_second_pass() {
-	alg := zzAlg()
+	alg := digest.SHA256
+	if zzTier() > 0 {
+		alg = zzAlg()
+	}
 	d := digest.Digest(zzDigest("d", string(alg)))
-	S := zzInt("size", 0, 2+zzTier())
+	S := zzInt("size", 0, 1+2*zzTier())
 	src := &zzSymSeeker{}
 	br := NewReader(WithDesc(descriptor.Descriptor{Digest: d, Size: int64(S)}), WithReader(src))
 	var out []byte
@@ -141,7 +144,7 @@ func ZZC01_breader_second_pass() {
 	failed := false
 	for pass := 0; pass < 2; pass++ {
 		for k := 0; k < K; k++ {
-			bl := zzInt("buflen", 0, 2)
+			bl := zzInt("buflen", 1, 2)
 			buf := make([]byte, bl)
 			n, err := br.Read(buf)
 			out = append(out, buf[:n]...)
